@@ -56,15 +56,56 @@ class Ty:
 
 
 # ------------------------------------------------------------------ rendering
-class W:
-    """Source writer that numbers wrapped argument expressions in source order."""
+# identifiers the generated code introduces itself; user variables with these names are passed as
+# bare-identifier arguments (C15: generated identifiers never capture or shadow user names)
+GEN_NAMES = ["tasks", "emitter", "sched", "flowInfo", "startTime", "task0", "task1", "task2", "pred1", "v1", "v2", "v3",
+             "schedInfo", "flowEmitter", "val", "idx", "key", "p1", "sliceTask0Slice", "mapTask1Jobs", "recovered",
+             "taskEmitter", "directiveInfo", "parallelInfo", "parallelEmitter", "schedEmitter", "sliceTask0Jobs", "t"]
 
-    def __init__(self):
+
+class W:
+    """Source writer for the argument expressions of one directive.  Every user expression is wrapped in
+    h.Arg(x, k, expr), which logs evaluation number k; the numbers follow source order.  An argument is
+    spelled in one of several syntactic forms (the generator hoists user expressions into its prologue and
+    must do so whatever the expression looks like):
+      call   - the wrapped expression itself, h.Arg(x, k, expr);
+      ident  - a variable declared before the directive, named like an identifier generated code uses,
+               initialised with the wrapped expression and passed as a bare identifier;
+      method - (function positions only) a method value recv.Run whose receiver is the wrapped expression."""
+
+    def __init__(self, forms=None, seed=0):
+        self.args = []          # (expr, form)
+        self.rng = random.Random(seed)
+        self.forms = forms or ["call"]
         self.k = 0
 
-    def arg(self, expr):
-        self.k += 1
-        return "h.Arg(x, %d, %s)" % (self.k, expr)
+    def arg(self, expr, form=None):
+        form = form or self.rng.choice(self.forms)
+        self.args.append((expr, form))
+        return "\x00%d\x00" % (len(self.args) - 1)
+
+    def finish(self, text):
+        """Replaces the placeholders in the directive's text. Returns (statements to put before the
+        directive, text).  Variables declared before the directive are evaluated first, in order."""
+        order = [int(m) for m in re.findall("\x00(\\d+)\x00", text)]
+        names = list(GEN_NAMES)
+        self.rng.shuffle(names)
+        pre, num, sub = [], {}, {}
+        k = 0
+        for i in order:
+            if self.args[i][1] == "ident" and names:
+                k += 1
+                nm = names.pop()
+                pre.append("\t%s := h.Arg(x, %d, %s)\n" % (nm, k, self.args[i][0]))
+                sub[i] = nm
+        for i in order:
+            if i not in sub:
+                k += 1
+                sub[i] = "h.Arg(x, %d, %s)" % (k, self.args[i][0])
+        self.k = k
+        # expressions may themselves contain placeholders only at top level of the directive, never nested
+        text = re.sub("\x00(\\d+)\x00", lambda m: sub[int(m.group(1))], text)
+        return "".join(pre), text
 
 
 def unit(prog, uid):
@@ -78,8 +119,9 @@ def render_flow(p):
     st = p["style"]
     name = p["name"]
     tys = {k: Ty(name, k, st["tkind"][str(k)]) for k in range(1, p["ntypes"] + 1)}
-    w = W()
-    w.k = 1          # number 1 is the context argument, first in source order
+    w = W(st.get("argforms"), st.get("argseed", 0))
+    ctxph = w.arg("%s.Ctx()" % (st.get("shadow") or ["x"])[0])   # the context argument comes first in source order
+    xdecls = []
     out = []
     decls = "".join(t.decl() + "\n" for t in tys.values() if t.decl())
     body = []
@@ -136,7 +178,14 @@ def render_flow(p):
         fn = "func(%s)%s {\n\t\t\t\t%s\n\t\t\t}" % (params, retsig, fbody)
         if spell == "paren":
             fn = "(" + fn + ")"
-        s = "\t\tcff.Task(\n\t\t\t%s,\n" % w.arg(fn)
+        if spell == "method":
+            # a method value: the receiver expression is what has to be evaluated once, in order, on the caller
+            rt = "%sR%d" % (name, u["id"])
+            xdecls.append("type %s struct{ x *h.X }\n\nfunc (rcv %s) Run(%s)%s {\n\tx := rcv.x\n\t%s\n}\n\n" %
+                          (rt, rt, params, retsig, fbody.replace("\n\t\t\t\t", "\n\t")))
+            s = "\t\tcff.Task(\n\t\t\t%s.Run,\n" % w.arg("%s{x: x}" % rt, form="call")
+        else:
+            s = "\t\tcff.Task(\n\t\t\t%s,\n" % w.arg(fn)
         if u["pred"]:
             q = unit(p, u["pred"])
             pins = ", ".join(["a%d %s" % (i, tys[ty].go()) for i, ty in enumerate(q["ins"])])
@@ -144,7 +193,13 @@ def render_flow(p):
             ptoks = "".join(", " + tys[ty].acc("a%d" % i) for i, ty in enumerate(q["ins"]))
             pfn = "func(%s) bool {\n\t\t\t\treturn x.Pred(%d, %s%s)\n\t\t\t}" % (
                 pparams, q["id"], "ctx" if q["wantctx"] else "nil", ptoks)
-            s += "\t\t\tcff.Predicate(%s),\n" % w.arg(pfn)
+            if st.get("spell", {}).get(str(q["id"])) == "method":
+                rt = "%sR%d" % (name, q["id"])
+                xdecls.append("type %s struct{ x *h.X }\n\nfunc (rcv %s) Run(%s) bool {\n\tx := rcv.x\n\treturn x.Pred(%d, %s%s)\n}\n\n" %
+                              (rt, rt, pparams, q["id"], "ctx" if q["wantctx"] else "nil", ptoks))
+                s += "\t\t\tcff.Predicate(%s.Run),\n" % w.arg("%s{x: x}" % rt, form="call")
+            else:
+                s += "\t\t\tcff.Predicate(%s),\n" % w.arg(pfn)
         if u["fb"]:
             s += "\t\t\tcff.FallbackWith(%s),\n" % ", ".join(
                 w.arg(tys[ty].mk("h.FBTok(%d, %d)" % (u["id"], i))) for i, ty in enumerate(u["outs"]))
@@ -176,9 +231,10 @@ def render_flow(p):
                 text += opt_instr()
         else:
             text += opt_task(unit(p, o))
-    src = "func %s(x *h.X) {\n" % name + "".join(body)
-    src += "\terr := cff.Flow(\n\t\th.Arg(x, 1, %s.Ctx()),\n" % xname + text + "\t)\n"
+    pre, dtext = w.finish("\terr := cff.Flow(\n\t\t%s,\n" % ctxph + text + "\t)\n")
+    src = "func %s(x *h.X) {\n" % name + "".join(body) + pre + dtext
     src += "\tx.Ret(err%s)\n}\n" % "".join(", " + tys[ty].acc("r%d" % ty) for ty in p["results"])
+    decls += "".join(xdecls)
     # the context argument is the first expression in source order
     # (numbering: it was reserved as number 1 below)
     return decls, src, w
@@ -192,8 +248,8 @@ def render_flow_numbered(p):
 def render_parallel(p):
     st = p["style"]
     name = p["name"]
-    w = W()
-    w.k = 1
+    w = W(st.get("argforms"), st.get("argseed", 0))
+    ctxph = w.arg("x.Ctx()")
     decls = ""
     pre = ""
     text = ""
@@ -226,6 +282,7 @@ def render_parallel(p):
         return "func(%s) {\n\t\t\t\t%s\n\t\t\t}" % (params, call)
 
     def opt_unit(u):
+        nonlocal decls
         s = ""
         if u["kind"] == "ptask":
             if st.get("tasksgroup") and u["id"] in st["tasksgroup"]:
@@ -250,7 +307,15 @@ def render_parallel(p):
                 fn = "func(%s) error {\n\t\t\t\treturn %s\n\t\t\t}" % (", ".join(ps), call)
             else:
                 fn = "func(%s) {\n\t\t\t\t_ = %s\n\t\t\t}" % (", ".join(ps), call)
-            s = "\t\tcff.Slice(\n\t\t\t%s,\n\t\t\t%s,\n" % (w.arg(fn), w.arg("s%d" % c))
+            if st.get("spell", {}).get(str(u["id"])) == "method":
+                rt = "%sR%d" % (name, u["id"])
+                body = ("return %s" % call) if u["haserr"] else ("_ = %s" % call)
+                decls += "type %s struct{ x *h.X }\n\nfunc (rcv %s) Run(%s)%s {\n\tx := rcv.x\n\t%s\n}\n\n" % (
+                    rt, rt, ", ".join(ps), " error" if u["haserr"] else "", body)
+                fnexpr = w.arg("%s{x: x}" % rt, form="call") + ".Run"
+            else:
+                fnexpr = w.arg(fn)
+            s = "\t\tcff.Slice(\n\t\t\t%s,\n\t\t\t%s,\n" % (fnexpr, w.arg("s%d" % c))
             if u["end"]:
                 s += "\t\t\tcff.SliceEnd(%s),\n" % w.arg(fn_noarg(unit(p, u["end"])))
             s += "\t\t),\n"
@@ -297,8 +362,8 @@ def render_parallel(p):
             s = opt_unit(u)
             if s:
                 text += s
-    src = "func %s(x *h.X) {\n" % name + pre
-    src += "\terr := cff.Parallel(\n\t\th.Arg(x, 1, x.Ctx()),\n" + text + "\t)\n\tx.Ret(err)\n}\n"
+    pre2, dtext = w.finish("\terr := cff.Parallel(\n\t\t%s,\n" % ctxph + text + "\t)\n")
+    src = "func %s(x *h.X) {\n" % name + pre + pre2 + dtext + "\tx.Ret(err)\n}\n"
     return decls, src, w.k
 
 
@@ -455,7 +520,8 @@ def gen_flow(rng, name, max_tasks=4, features=None, plain=False):
     p = dict(name=name, dir="flow", ntypes=ntypes, params=params, results=results, units=units, nargsexpr=0,
              leaves=leaves, instr=instr, hasconc=rng.random() < 0.7, coemode="none", autoins=False, mode="base",
              style=dict(tkind={str(k): rng.choice(KINDS) for k in range(1, ntypes + 1)}, order=order,
-                        spell={str(u["id"]): rng.choice(["lit", "lit", "paren"]) for u in units if u["kind"] == "task"},
+                        spell={str(u["id"]): rng.choice(["lit", "lit", "paren", "method"]) for u in units},
+                        argforms=rng.choice([["call"], ["call", "call", "ident"], ["call", "ident"]]), argseed=rng.randint(0, 10**6),
                         emitshape=rng.choice(["flat", "flat", "stack2", "nop"])))
     return p
 
@@ -470,7 +536,8 @@ def gen_parallel(rng, name):
                           pred=0, task=0, fb=False, invoke=False, instr=False, coll=0, len=0, withidx=False, end=0, nargs=0))
     coemode = rng.choice(["none", "none", "true", "false", "expr"])
     ncoll = rng.choice([0, 1, 1, 2]) if ntask else rng.choice([1, 1, 2])
-    style = dict(order=[], namedslice={}, tasksgroup=[])
+    style = dict(order=[], namedslice={}, tasksgroup=[], argforms=rng.choice([["call"], ["call", "call", "ident"], ["call", "ident"]]),
+                 argseed=rng.randint(0, 10**6), spell={})
     for c in range(1, ncoll + 1):
         ismap = rng.random() < 0.4
         ln = rng.choice([-1, 0, 1, 2, 3, 3])
@@ -486,6 +553,7 @@ def gen_parallel(rng, name):
                               len=0, withidx=False, end=0, nargs=0))
         if not ismap:
             style["namedslice"][str(c)] = rng.random() < 0.3
+            style["spell"][str(eid)] = rng.choice(["lit", "lit", "method"])
     leaves = rng.choice([0, 0, 1, 2])
     for u in units:
         if u["kind"] == "ptask" and leaves > 0 and rng.random() < 0.6:
@@ -503,6 +571,38 @@ def gen_parallel(rng, name):
     return dict(name=name, dir="parallel", ntypes=0, params=[], results=[], units=units, nargsexpr=0, leaves=leaves,
                 instr=leaves > 0 and rng.random() < 0.7, hasconc=rng.random() < 0.7, coemode=coemode, autoins=False,
                 mode="base", style=style)
+
+
+def gen_parallel_big(rng, name, ismap=False):
+    """One large collection (more elements than fit in a byte-sized counter) with an End hook: the End
+    job depends on every element job (C10: only after every element call has returned)."""
+    n = 256 + rng.randint(0, 90)
+    eid, endid = (401, 501) if ismap else (201, 301)
+    units = [dict(id=eid, kind="melem" if ismap else "selem", ins=[], outs=[], haserr=True, wantctx=rng.random() < 0.5, pred=0, task=0,
+                  fb=False, invoke=False, instr=False, coll=1, len=n, withidx=(not ismap) and rng.random() < 0.5, end=endid, nargs=0),
+             dict(id=endid, kind="mend" if ismap else "send", ins=[], outs=[], haserr=rng.random() < 0.5, wantctx=False, pred=0, task=0,
+                  fb=False, invoke=False, instr=False, coll=1, len=0, withidx=False, end=0, nargs=0)]
+    return dict(name=name, dir="parallel", ntypes=0, params=[], results=[], units=units, nargsexpr=0, leaves=0, instr=False,
+                hasconc=True, coemode="none", autoins=False, mode="base", big=True,
+                style=dict(order=["conc", "coe", "emit", "instr", "tasks", eid, endid], namedslice={"1": False}, tasksgroup=[]))
+
+
+def big_scenarios(rng, p):
+    """All ok with slow elements (the End job is enqueued while most elements are unfinished), and one with
+    a failing element late in the collection (the End hook must not run)."""
+    u = p["units"][0]
+    out = []
+    for conc, us in ((rng.choice([2, 4, 8]), 40), (16, 150)):
+        sc = gen_scenario(rng, p, "ok")
+        sc["conc"] = conc
+        sc["delayus"] = {"%d:%d" % (u["id"], i): us for i in range(u["len"])}
+        out.append(sc)
+    sc = gen_scenario(rng, p, "ok")
+    sc["conc"] = 4
+    sc["out"] = {"%d:%d" % (u["id"], u["len"] - 3): "err"}
+    sc["delayus"] = {"%d:%d" % (u["id"], i): 20 for i in range(u["len"])}
+    out.append(sc)
+    return out
 
 
 # ------------------------------------------------------------------ scenarios
